@@ -633,7 +633,14 @@ impl<S: BitmapSlice + Send + Sync> PassthroughFs<S> {
         flags: i32,
         mode: u32,
     ) -> io::Result<Option<File>> {
-        match openat(dir, pathname, flags | libc::O_CREAT | libc::O_EXCL, mode) {
+        // O_NOFOLLOW: with O_PATH among the caller's flags the kernel ignores O_CREAT | O_EXCL and would
+        // otherwise follow a symbolic link at `pathname`, possibly out of the exported directory.
+        match openat(
+            dir,
+            pathname,
+            flags | libc::O_CREAT | libc::O_EXCL | libc::O_NOFOLLOW,
+            mode,
+        ) {
             Ok(file) => Ok(Some(file)),
             Err(err) => {
                 // Ignore the error if the file exists and O_EXCL is not present in `flags`.
